@@ -15,7 +15,7 @@ RULE = ('Hypothesis draws message (body class incl. empty/block-boundary/binary/
         'encryptor (SKESK with/without encrypted session key, salted/iterated S2K, PKESK RSA/ECDH, SEIPD or tag-9 container, old/new/'
         'partial inner headers) and PGPy decrypts. Non-trivial: >=2 recipients, or non-default cipher/compression, or body > one '
         'cipher block, or foreign-produced; distinct by (direction, cipher, recipient kinds, compression, body class).')
-RULE += ' Messages of the cleartext framework are encrypted too (refusal or the same text). Backward cases include an SKESK whose own cipher differs (also in key size) from the data cipher. Inner packets also with old-format indeterminate lengths; ECDH session keys padded to 40/48 octets (RFC 6637 8); RSA recipients whose modulus length is not a multiple of 8 bits; messages exported before being signed; the export of the decrypted message must be a grammar-conformant message (no MDC leftovers).'
+RULE += ' Backward messages may carry a further PKESK for a recipient of an unknown public-key algorithm. Messages of the cleartext framework are encrypted too (refusal or the same text). Backward cases include an SKESK whose own cipher differs (also in key size) from the data cipher. Inner packets also with old-format indeterminate lengths; ECDH session keys padded to 40/48 octets (RFC 6637 8); RSA recipients whose modulus length is not a multiple of 8 bits; messages exported before being signed; the export of the decrypted message must be a grammar-conformant message (no MDC leftovers).'
 ASSUMPTIONS = ['refpgp.enc is an independent RFC 4880 5.1/5.3/5.13/13.9 + RFC 6637 + RFC 3394 implementation sharing only block ciphers, '
                'RSA/ECDH primitives and hashlib with PGPy', 'a supplied session key has exactly the cipher key size (documented precondition)',
                'literal time compared at the wire resolution of one second']
@@ -35,6 +35,7 @@ def case_strategy(tier):
             'container': st.sampled_from([18, 18, 18, 9]),
             'esk': st.booleans(),
             'skc': st.integers(0, 5),
+            'foreign': st.sampled_from([None, None, None, 100, 110, 25, 21, 28]),
             's2k': st.sampled_from(['iterated', 'salted', 'iterated']),
             'count': st.integers(0, 120),
             'hdr': st.sampled_from(['new', 'old', 'partial', 'new5', 'indeterminate']),
@@ -213,6 +214,12 @@ def eval_backward(case, rec):
                 skc = [cipher, 7, 9, 3, 8, 13][b.get('skc', 0) % 6]
                 esks += wire.build_packet(3, enc.skesk_build(skc, spec_, r['pw'], session, session_sym=cipher))
     cont = wire.build_packet(18, enc.seipd_build(cipher, session, inner)) if b['container'] == 18 else wire.build_packet(9, enc.sed_build(cipher, session, inner))
+    if b.get('foreign') is not None and not direct:
+        # one more recipient, whose key is of an algorithm this implementation has no fields for (private use 100-110 of RFC 4880 9.1,
+        # ids later specifications assign): that packet is for somebody else and must not keep the others from reading the message
+        other = wire.build_packet(1, b'\x03' + bytes(range(0xA0, 0xA8)) + bytes([b['foreign']]) + bytes((7 * i + 3) & 0xFF for i in range(32 + b['foreign'] % 9)))
+        esks = other + esks if b['foreign'] % 2 else esks + other
+        rec.note('bwd/further-recipient-of-unknown-algorithm')
     blob = esks + cont
     text = armor.write_block('MESSAGE', blob) if case['armored'] else blob
     kids = [r['kid'] for r in recips if r['t'] == 'key']
@@ -314,7 +321,7 @@ def matrix(arg):
                 case = {'dir': d, 'msg': {'body': (b'covering matrix body %d ' % i * 3).hex(), 'fmt': 'b', 'sensitive': False, 'comp': i % 4,
                                         'signers': ['ed25519-1'] if i % 3 == 0 else [], 'peek': i % 6 == 0},
                         'cipher': cipher, 'recips': [r], 'armored': bool(i % 2), 'supplied': bool(i % 3 == 0),
-                        'bwd': {'container': 18 if i % 5 else 9, 'esk': bool(i % 2), 'skc': i, 's2k': 'iterated' if i % 3 else 'salted', 'count': 16 + i % 50,
+                        'bwd': {'container': 18 if i % 5 else 9, 'esk': bool(i % 2), 'skc': i, 'foreign': [None, 100, None, 25][i % 4], 's2k': 'iterated' if i % 3 else 'salted', 'count': 16 + i % 50,
                                 'hdr': ['new', 'old', 'partial', 'new5', 'indeterminate'][i % 5], 'fname': ['', 'f.txt', 'ünï.txt'][i % 3], 't': 1234567890}}
                 evaluate(case, rec)
                 if d == 'fwd' and i % 4 == 1:
